@@ -299,6 +299,12 @@ func (w WALBatch) replay(fs *fileStore) error {
 		if row.LSN >= fs._nextLSN {
 			fs._nextLSN = row.LSN + 1
 		}
+		// likewise the row-id counter: the header may be older than a page that
+		// already holds this row (a crash after the page write and before the
+		// header write of a flush)
+		if row.WALOp == OpInsert && row.cellID > fs.lastKey {
+			fs.lastKey = row.cellID
+		}
 		node, err := fs.fetch(row.pageID)
 		if err != nil {
 			return err
@@ -314,11 +320,6 @@ func (w WALBatch) replay(fs *fileStore) error {
 			err = bt.insertKey(row.cellID, row.LSN, row.val)
 			if err != nil && !errors.Is(err, errKeyAlreadyExists) {
 				return err
-			}
-			// the record carries the row id it was given; counting records
-			// would reissue ids consumed by failed inserts
-			if row.cellID > fs.lastKey {
-				fs.lastKey = row.cellID
 			}
 			if bt.rootOffset != row.pageID {
 				// the redone insert split the root. the record of the root move
